@@ -1,6 +1,6 @@
 #!/bin/sh
 # run every registered check (quick by default) on the current /repo tree and validate the evidence
-cd /verif || exit 2
+cd "$(dirname "$0")/.." || exit 2
 tier="${1:-quick}"
 ids=$(python3 -c "import json;print(' '.join(c['property_id'] for c in json.load(open('MANIFEST.json'))['checks']))")
 rc=0
@@ -15,7 +15,7 @@ done
 python3-vt - <<'PY'
 import json,jsonschema,glob
 sch=json.load(open('/root/.vp/EVIDENCE.schema.json'))
-for f in sorted(glob.glob('/verif/evidence/*.json')):
+for f in sorted(glob.glob('evidence/*.json')):
     try: jsonschema.validate(json.load(open(f)), sch)
     except Exception as ex: print('INVALID', f, str(ex)[:200])
 print('evidence validated')
